@@ -180,8 +180,18 @@ fn channel_id_case(ctx: &mut Ctx, idx: usize, w: &World) {
     let lens = [0usize, 1, 7, 19, 255, 256, 257, 65535, 65536, 65537, 70000];
     let pickl = |ctx: &mut Ctx| -> usize { if ctx.prng.gen_range(0..3) == 0 { lens[ctx.prng.gen_range(0..lens.len())] } else { ctx.prng.gen_range(0..20) } };
     let (la, lb) = (pickl(ctx), pickl(ctx));
-    let ma = rb(ctx, la);
-    let ca = rb(ctx, lb);
+    let mut ma = rb(ctx, la);
+    let mut ca = rb(ctx, lb);
+    // account info is "text" to its users: in a third of the cases a string with the features text handling trips over
+    // (byte-order mark, surrounding white space, line ends, NUL, mixed case, composed / decomposed accents)
+    let textish = |ctx: &mut Ctx| -> Vec<u8> {
+        let core = ["Alice", "tz1-Account_07", "caf\u{e9}", "cafe\u{301}", "", "0x00ff", "a b"][ctx.prng.gen_range(0..7)];
+        let pre = ["", "\u{feff}", " ", "\t", "\u{feff}\u{feff}", "\0"][ctx.prng.gen_range(0..6)];
+        let post = ["", "\n", "\r\n", " ", "\0", "\u{feff}"][ctx.prng.gen_range(0..6)];
+        format!("{}{}{}", pre, core, post).into_bytes()
+    };
+    if ctx.prng.gen_range(0..3) == 0 { ma = textish(ctx); }
+    if ctx.prng.gen_range(0..3) == 0 { ca = textish(ctx); }
     let pk = w.customer.merchant_public_key();
     // the key's bytes as they enter the channel id, assembled independently of the code under test:
     // g1 | Y_1..Y_5 | g~ | X~ | Y~_1..Y~_5 (compressed, no length prefixes)
@@ -228,6 +238,25 @@ fn channel_id_case(ctx: &mut Ctx, idx: usize, w: &World) {
     alts.push(("merchant-account-extended", id(&mr, &cr, &ma2, &ca)));
     let mut ca2 = ca.clone(); ca2.push(0);
     alts.push(("customer-account-extended", id(&mr, &cr, &ma, &ca2)));
+    // every other spelling of the "same text" is a different input: byte-order mark added / removed, trimmed, padded,
+    // line end changed, case folded, accent composed / decomposed, trailing NUL dropped
+    let spellings = |v: &[u8]| -> Vec<Vec<u8>> {
+        let mut out: Vec<Vec<u8>> = vec![];
+        let bom = b"\xEF\xBB\xBF";
+        let mut x = bom.to_vec(); x.extend(v); out.push(x);
+        if v.starts_with(bom) { out.push(v[3..].to_vec()); }
+        if let Ok(t) = std::str::from_utf8(v) {
+            for u in [t.trim().to_string(), t.trim_start_matches('\u{feff}').to_string(), t.trim_end_matches('\0').to_string(), t.to_lowercase(), t.to_uppercase(), t.replace("\r\n", "\n"), t.replace("\n", "\r\n"),
+                      t.replace("e\u{301}", "\u{e9}"), t.replace("\u{e9}", "e\u{301}"), format!(" {}", t), format!("{}\n", t)] {
+                out.push(u.into_bytes());
+            }
+        }
+        out.retain(|x| x[..] != v[..]);
+        out.sort(); out.dedup();
+        out
+    };
+    for x in spellings(&ma) { alts.push(("merchant-account-respelled", id(&mr, &cr, &x, &ca))); }
+    for x in spellings(&ca) { alts.push(("customer-account-respelled", id(&mr, &cr, &ma, &x))); }
     for (what, v) in alts {
         ctx.evals += 1;
         ctx.count(&format!("channel-id:{}:{}", what, if v != base { "changed" } else { "UNCHANGED" }));
